@@ -53,6 +53,58 @@ pub fn run_case(line: &str) -> String {
                 Err(e) => format!("err {}", ekind(&e)),
             }
         }
+        "encw" => {
+            // a history of encode_to_writer calls on one thread: `W<limit> <term> | W<limit> <term> ...` (limit -1 = a writer
+            // that takes everything; otherwise the writer fails once more than <limit> bytes have been offered)
+            struct Limited {
+                buf: Vec<u8>,
+                limit: i64,
+            }
+            impl std::io::Write for Limited {
+                fn write(&mut self, data: &[u8]) -> std::io::Result<usize> {
+                    if self.limit >= 0 && (self.buf.len() + data.len()) as i64 > self.limit {
+                        let room = (self.limit as usize).saturating_sub(self.buf.len());
+                        if room == 0 {
+                            return Err(std::io::Error::new(std::io::ErrorKind::Other, "full"));
+                        }
+                        self.buf.extend_from_slice(&data[..room]);
+                        return Ok(room);
+                    }
+                    self.buf.extend_from_slice(data);
+                    Ok(data.len())
+                }
+                fn flush(&mut self) -> std::io::Result<()> {
+                    Ok(())
+                }
+            }
+            let mut outs = Vec::new();
+            for item in rest.split(" | ") {
+                let (w, tt) = item.split_once(' ').expect("encw item");
+                let limit: i64 = w[1..].parse().expect("limit");
+                let t = read_term(&mut Toks::new(tt));
+                let mut wr = Limited { buf: Vec::new(), limit };
+                let r = erltf::encoder::encode_to_writer(&t, &mut wr);
+                outs.push(match (erltf::encode(&t), r) {
+                    (Err(e), Err(_)) => format!("err {}", ekind(&e)),
+                    (Err(_), Ok(())) => "DIFF writer-ok-encode-err".to_string(),
+                    (Ok(b), Ok(())) => {
+                        if wr.buf == b {
+                            "ok same".to_string()
+                        } else {
+                            format!("DIFF {}", hex(&wr.buf))
+                        }
+                    }
+                    (Ok(b), Err(_)) => {
+                        if limit >= 0 && (b.len() as i64) > limit {
+                            "werr".to_string()
+                        } else {
+                            "DIFF writer-err".to_string()
+                        }
+                    }
+                });
+            }
+            outs.join(" | ")
+        }
         "rt" => {
             let t = read_term(&mut Toks::new(rest));
             let tin = term_str(&t);
